@@ -278,9 +278,10 @@ class ByteLoop:
             st.extend(nxt(x))
         return seen
 
-    def classify(self, bid, idx, var):
-        """var: the decl record of the byte variable (in block bid at statement idx)."""
-        env = {var["id"]: byte_identity(var["ty"])}
+    def classify(self, bid, idx, var, seed=None):
+        """var: the decl record of the byte variable (in block bid at statement idx).
+        seed: optional {local id: values per byte} replacing the identity of `var`."""
+        env = dict(seed) if seed is not None else {var["id"]: byte_identity(var["ty"])}
         loop = self._scc_of(bid)
         if len(loop) < 2 and not any(s["to"] == bid for s in self.blocks[bid]["succ"]):
             raise Unsupported("byte declaration %s is not inside a loop" % var["name"])
